@@ -555,6 +555,13 @@ fn transparency_case(l: &mut Local, img: &[u8], n: u8, name: &str, type_name: &s
                             Ok(Err(m)) => l.violation(format!("{}padded-packet-followed-by-another:{}", prefix, type_name), || format!("{} + padding {}", hex_short(img), n), || m),
                             Ok(Ok(())) => {}
                         }
+                        // the unknown-packet parser is a parser too: it accepts the unpadded bytes of any type (they are
+                        // well framed), so it must accept the padded ones and expose them unchanged
+                        match guard::catch(|| (Unknown::parse(img).is_ok(), Unknown::parse(&padded).map(|u| u.data().len() == padded.len()))) {
+                            Err(pi) => l.subject_panic(&format!("{}Unknown::parse-padded:{}", prefix, name), &pi, || format!("{} + padding {}", hex_short(img), n)),
+                            Ok((true, Ok(true))) | Ok((false, _)) => {}
+                            Ok((true, other)) => l.violation(format!("{}padded-rejected-by-Unknown::parse:{}", prefix, type_name), || format!("{} + padding {}", hex_short(img), n), || format!("{:?}", other)),
+                        }
                         // what the abstract observation cannot show: absent vs empty (BYE reason), the string accessors
                         let fine = guard::catch(|| extra_observation(img) == extra_observation(&padded));
                         match fine {
